@@ -228,6 +228,31 @@ func RunParams(self string, sc ParamScenario, base string) Ev {
 		}
 		hist := ds.HistoryStore().ReadStatusRecent(file, 10)
 		rec["runsRecorded"] = len(hist)
+		// ---- run 3: the retry is a recorded run of its own; retrying IT starts from the parameters the retry recorded.
+		// Every step has succeeded by now, so only the exit handler runs: it is the consumer of run 3
+		if !sc.Stop {
+			clearEnv()
+			os.WriteFile(filepath.Join(dir, "run"), []byte("3"), 0o644)
+			sf2, err := ds.HistoryStore().FindByRequestID(file, fmt.Sprintf("par-req-%d-retry", sc.ID))
+			if err != nil {
+				rec["infra"] = "history of the retry: " + err.Error()
+				return rec
+			}
+			rec["recordedParams2"] = sf2.Status.Params
+			if d3, err := dag.Load("", file, sf2.Status.Params); err != nil {
+				rec["retryLoadError"] = "second retry: " + err.Error()
+			} else {
+				a3 := agent.New(fmt.Sprintf("par-req-%d-retry2", sc.ID), d3, quietLogger, filepath.Join(dir, "logs"), filepath.Join(dir, "logs", "a3.log"), cli, ds,
+					&agent.Options{RetryTarget: sf2.Status})
+				go func() { runErr <- a3.Run(context.Background()) }()
+				select {
+				case <-runErr:
+				case <-time.After(20 * time.Second):
+					rec["infra"] = "retry of the retry does not end"
+					return rec
+				}
+			}
+		}
 	}
 	clearEnv()
 	// ---- collect the probes
@@ -243,7 +268,7 @@ func RunParams(self string, sc ParamScenario, base string) Ev {
 		}
 	}
 	want["OUTV"] = strings.TrimSpace(PayloadValues[sc.Payload])
-	tags := []string{"first.1", "exit.1", "after.2", "exit.2"}
+	tags := []string{"first.1", "exit.1", "after.2", "exit.2", "exit.3"}
 	if sc.Stop {
 		// the last iteration that ran printed payload + "#<its number>"
 		want["OUTV"] = strings.TrimSpace(PayloadValues[sc.Payload] + "#" + iter)
